@@ -18,8 +18,9 @@ type Recorder struct {
 	Scen  int
 	Stats map[string]int
 
-	lastAtropos hash.Event
-	curJump     int
+	lastAtropos  hash.Event
+	curJump      int
+	prevCheaters []int                   // cheater list of the previous block of the epoch
 	maxDelivered map[idx.ValidatorID]int // highest sequence number delivered so far per creator (current epoch of the current instance)
 }
 
@@ -91,8 +92,22 @@ func (r *Recorder) blocksJSON(s *Scenario, blocks []BlockRec) []line {
 		if late {
 			r.Stats["blocks_delivering_an_older_fork_branch"]++
 		}
+		if b.Frame > 1 {
+			for _, pc := range r.prevCheaters {
+				found := false
+				for _, x := range ch {
+					found = found || x == pc
+				}
+				if !found {
+					r.Stats["cheater_of_a_block_missing_in_the_next_block"]++ // the next Atropos does not descend from the fork observation
+					break
+				}
+			}
+		}
+		r.prevCheaters = ch
 		if b.Seal != nil {
 			r.maxDelivered = map[idx.ValidatorID]int{}
+			r.prevCheaters = nil
 		}
 		seal := [][2]int{}
 		if b.Seal != nil {
